@@ -222,7 +222,10 @@ columnConstraint:
 	DEFAULT signedNumber {
 		$$ = ccDefault($2)
 	} |
-	DEFAULT literal {
+	DEFAULT tBare {
+		$$ = ccDefault(bareDefault($2))
+	} |
+	DEFAULT tLiteral {
 		$$ = ccDefault($2)
 	} |
 	DEFAULT NULL {
